@@ -1557,7 +1557,8 @@ def mon_c07(ix: Index):  # noqa: C901, PLR0912
             orphan = False
             p = ctx_path(path)
             while p is not None:
-                if ix.path2id.get(p) in done_ctx:
+                # orphaned only if the enclosing context had completed by the time this invocation ended (not in a later one)
+                if ix.path2id.get(p) in done_ctx and done_ctx[ix.path2id.get(p)] <= end.get("aseq", 10**12):
                     orphan = True
                 p = ctx_path(p)
             if orphan:
